@@ -180,10 +180,10 @@ pub enum Op {
     ROp { s: u64, funds: Coins, offer: A, ask: A, to: Option<u64> },
     RAssert { s: u64, funds: Coins, asset: A, prev: u128, min: u128, rcv: u64 },
     RReceive { s: u64, funds: Coins, from: u64, amount: u128, hook: Hook },
-    FCfg { s: u64, funds: Coins, owner: Option<u64> },
+    FCfg { s: u64, funds: Coins, owner: Option<u64>, tcode: Option<u64>, pcode: Option<u64> },
     FCreate { s: u64, funds: Coins, a0: A, a1: A, wl: Vec<u64>, min0: u128, min1: u128, comm: Option<u128> },
     FAdd { s: u64, funds: Coins, denom: u64, decimals: u8 },
-    FMig { s: u64, funds: Coins, p: u64 },
+    FMig { s: u64, funds: Coins, p: u64, code: Option<u64> },
 }
 
 fn list_str(v: &[u64]) -> String {
@@ -216,12 +216,12 @@ impl std::fmt::Display for Op {
             Op::ROp { s, funds, offer, ask, to } => write!(f, "r_op {s} {} {offer} {ask} {}", coins_str(funds), o(to)),
             Op::RAssert { s, funds, asset, prev, min, rcv } => write!(f, "r_assert {s} {} {asset} {prev} {min} {rcv}", coins_str(funds)),
             Op::RReceive { s, funds, from, amount, hook } => write!(f, "r_receive {s} {} {from} {amount} {hook}", coins_str(funds)),
-            Op::FCfg { s, funds, owner } => write!(f, "f_cfg {s} {} {}", coins_str(funds), o(owner)),
+            Op::FCfg { s, funds, owner, tcode, pcode } => write!(f, "f_cfg {s} {} {} {} {}", coins_str(funds), o(owner), o(tcode), o(pcode)),
             Op::FCreate { s, funds, a0, a1, wl, min0, min1, comm } => {
                 write!(f, "f_create {s} {} {a0} {a1} {} {min0} {min1} {}", coins_str(funds), list_str(wl), o(comm))
             }
             Op::FAdd { s, funds, denom, decimals } => write!(f, "f_add {s} {} {denom} {decimals}", coins_str(funds)),
-            Op::FMig { s, funds, p } => write!(f, "f_mig {s} {} {p}", coins_str(funds)),
+            Op::FMig { s, funds, p, code } => write!(f, "f_mig {s} {} {p} {}", coins_str(funds), o(code)),
         }
     }
 }
@@ -248,14 +248,14 @@ pub fn parse_op(t: &[&str]) -> Op {
         "r_op" => Op::ROp { s: n(1), funds: parse_coins(t[2]), offer: parse_asset(t[3]), ask: parse_asset(t[4]), to: po(t[5]) },
         "r_assert" => Op::RAssert { s: n(1), funds: parse_coins(t[2]), asset: parse_asset(t[3]), prev: a(4), min: a(5), rcv: n(6) },
         "r_receive" => Op::RReceive { s: n(1), funds: parse_coins(t[2]), from: n(3), amount: a(4), hook: parse_hook(t[5]) },
-        "f_cfg" => Op::FCfg { s: n(1), funds: parse_coins(t[2]), owner: po(t[3]) },
+        "f_cfg" => Op::FCfg { s: n(1), funds: parse_coins(t[2]), owner: po(t[3]), tcode: t.get(4).and_then(|x| po(x)), pcode: t.get(5).and_then(|x| po(x)) },
         "f_create" => Op::FCreate {
             s: n(1), funds: parse_coins(t[2]), a0: parse_asset(t[3]), a1: parse_asset(t[4]),
             wl: if t[5] == "-" { vec![] } else { t[5].split(',').map(|x| x.parse().unwrap()).collect() },
             min0: a(6), min1: a(7), comm: po(t[8]),
         },
         "f_add" => Op::FAdd { s: n(1), funds: parse_coins(t[2]), denom: n(3), decimals: n(4) as u8 },
-        "f_mig" => Op::FMig { s: n(1), funds: parse_coins(t[2]), p: n(3) },
+        "f_mig" => Op::FMig { s: n(1), funds: parse_coins(t[2]), p: n(3), code: t.get(4).and_then(|x| po(x)) },
         x => panic!("unknown op {x}"),
     }
 }
@@ -278,6 +278,7 @@ pub struct Env<'a> {
     pub router: u64,
     pub users: Vec<u64>,
     pub tokens: Vec<u64>,
+    pub alias_tokens: Vec<u64>, // upper-case spellings of the token addresses: same canonical bytes, no contract lives there
     pub pairs: Vec<PairMeta>,
     pub accounts: Vec<u64>,
     pub assets: Vec<A>,
@@ -343,15 +344,17 @@ impl<'a> Env<'a> {
         match a {
             A::N(d) => self.app.wrap().query_balance(self.astr(who), self.denoms[d as usize].clone()).unwrap().amount.u128(),
             A::T(t) => {
-                let r: BalanceResponse =
-                    self.app.wrap().query_wasm_smart(self.astr(t), &Cw20QueryMsg::Balance { address: self.astr(who) }).unwrap();
-                r.balance.u128()
+                // a query can fail on states only a defective implementation reaches (e.g. an unnormalised address
+                // recorded as a pair asset): observe 0 rather than abort the harness — the divergence is reported anyway
+                let r: Result<BalanceResponse, _> =
+                    self.app.wrap().query_wasm_smart(self.astr(t), &Cw20QueryMsg::Balance { address: self.astr(who) });
+                r.map(|x| x.balance.u128()).unwrap_or(0)
             }
         }
     }
     pub fn supply(&self, t: u64) -> u128 {
-        let r: TokenInfoResponse = self.app.wrap().query_wasm_smart(self.astr(t), &Cw20QueryMsg::TokenInfo {}).unwrap();
-        r.total_supply.u128()
+        let r: Result<TokenInfoResponse, _> = self.app.wrap().query_wasm_smart(self.astr(t), &Cw20QueryMsg::TokenInfo {});
+        r.map(|x| x.total_supply.u128()).unwrap_or(0)
     }
 
     fn hook_bin(&self, h: &Hook, for_router: bool) -> cosmwasm_std::Binary {
@@ -439,9 +442,9 @@ impl<'a> Env<'a> {
                     me.addr(*s), me.addr(me.router),
                     &RouterExec::Receive(cw20::Cw20ReceiveMsg { sender: me.astr(*from), amount: Uint128::new(*amount), msg: me.hook_bin(hook, true) }),
                     &me.coins(funds)),
-                Op::FCfg { s, funds, owner } => app.execute_contract(
+                Op::FCfg { s, funds, owner, tcode, pcode } => app.execute_contract(
                     me.addr(*s), me.addr(me.factory),
-                    &FacExec::UpdateConfig { owner: owner.map(|x| me.astr(x)), token_code_id: None, pair_code_id: None }, &me.coins(funds)),
+                    &FacExec::UpdateConfig { owner: owner.map(|x| me.astr(x)), token_code_id: *tcode, pair_code_id: *pcode }, &me.coins(funds)),
                 Op::FCreate { s, funds, a0, a1, wl, min0, min1, comm } => app.execute_contract(
                     me.addr(*s), me.addr(me.factory),
                     &FacExec::CreatePair {
@@ -457,9 +460,9 @@ impl<'a> Env<'a> {
                 Op::FAdd { s, funds, denom, decimals } => app.execute_contract(
                     me.addr(*s), me.addr(me.factory),
                     &FacExec::AddNativeTokenDecimals { denom: me.denoms[*denom as usize].clone(), decimals: *decimals }, &me.coins(funds)),
-                Op::FMig { s, funds, p } => app.execute_contract(
+                Op::FMig { s, funds, p, code } => app.execute_contract(
                     me.addr(*s), me.addr(me.factory),
-                    &FacExec::MigratePair { contract: me.astr(*p), code_id: None }, &me.coins(funds)),
+                    &FacExec::MigratePair { contract: me.astr(*p), code_id: *code }, &me.coins(funds)),
             };
             r.map_err(|e| format!("{:#}", e))
         };
@@ -609,24 +612,26 @@ impl<'a> Env<'a> {
             }
         }
         for (t, owner, spender) in self.allow_watch.clone() {
-            let r: cw20::AllowanceResponse = self.app.wrap()
-                .query_wasm_smart(self.astr(t), &Cw20QueryMsg::Allowance { owner: self.astr(owner), spender: self.astr(spender) }).unwrap();
-            self.put(format!("allow {t} {owner} {spender}"), r.allowance.to_string());
+            let r: Result<cw20::AllowanceResponse, _> = self.app.wrap()
+                .query_wasm_smart(self.astr(t), &Cw20QueryMsg::Allowance { owner: self.astr(owner), spender: self.astr(spender) });
+            self.put(format!("allow {t} {owner} {spender}"), match r { Ok(x) => x.allowance.to_string(), Err(_) => "err".into() });
         }
         let cfg: ConfigResponse = self.app.wrap().query_wasm_smart(self.astr(self.factory), &FacQuery::Config {}).unwrap();
         let oid = self.aid(&cfg.owner);
         self.put("owner".into(), oid.to_string());
+        self.put("codes".into(), format!("{} {}", cfg.pair_code_id, cfg.token_code_id));
         for d in 0..self.denoms.len() {
             let r: Result<NativeTokenDecimalsResponse, _> =
                 self.app.wrap().query_wasm_smart(self.astr(self.factory), &FacQuery::NativeTokenDecimals { denom: self.denoms[d].clone() });
             self.put(format!("denom {d}"), match r { Ok(x) => x.decimals.to_string(), Err(_) => "-".into() });
         }
         for pm in self.pairs.clone() {
-            let pi: PairInfo = self.app.wrap().query_wasm_smart(self.astr(pm.addr), &PairQuery::Pair {}).unwrap();
-            let s = self.pair_info_str(&pi);
+            let pi: Result<PairInfo, _> = self.app.wrap().query_wasm_smart(self.astr(pm.addr), &PairQuery::Pair {});
+            let s = match &pi { Ok(pi) => self.pair_info_str(pi), Err(_) => "err".into() };
             self.put(format!("pair {}", pm.addr), s);
-            let pool: PoolResponse = self.app.wrap().query_wasm_smart(self.astr(pm.addr), &PairQuery::Pool {}).unwrap();
-            self.put(format!("pool {}", pm.addr), format!("{} {} {}", pool.assets[0].amount, pool.assets[1].amount, pool.total_share));
+            let pool: Result<PoolResponse, _> = self.app.wrap().query_wasm_smart(self.astr(pm.addr), &PairQuery::Pool {});
+            let ps = match pool { Ok(pool) => format!("{} {} {}", pool.assets[0].amount, pool.assets[1].amount, pool.total_share), Err(_) => "err".into() };
+            self.put(format!("pool {}", pm.addr), ps);
             for (x, y) in [(pm.a0, pm.a1), (pm.a1, pm.a0)] {
                 let r: Result<PairInfo, _> = self.app.wrap()
                     .query_wasm_smart(self.astr(self.factory), &FacQuery::Pair { asset_infos: [self.info(x), self.info(y)] });
@@ -638,8 +643,11 @@ impl<'a> Env<'a> {
         let mut all: Vec<String> = vec![];
         let mut cursor: Option<[AssetInfo; 2]> = None;
         for _ in 0..100 {
-            let r: PairsResponse = self.app.wrap()
-                .query_wasm_smart(self.astr(self.factory), &FacQuery::Pairs { start_after: cursor.clone(), limit: Some(30) }).unwrap();
+            let r: PairsResponse = match self.app.wrap()
+                .query_wasm_smart(self.astr(self.factory), &FacQuery::Pairs { start_after: cursor.clone(), limit: Some(30) }) {
+                Ok(r) => r,
+                Err(_) => { all.push("err".into()); break; }
+            };
             if r.pairs.is_empty() {
                 break;
             }
@@ -692,6 +700,35 @@ impl<'a> Env<'a> {
         GUARDED.store(false, Ordering::SeqCst);
         let s = match r { Ok(Ok(x)) => format!("ok {}", x.amount), _ => "fail".into() };
         writeln!(self.w, "query seq={} {} {amt} {} => {s}", self.seq, if reverse { "rrev" } else { "rsimops" }, ops_str(ops)).unwrap();
+    }
+    /// the hop-by-hop composition of the pairs' own (reverse) simulation queries, computed here from the
+    /// implementation's answers: what the router's (reverse) simulation must equal (C12)
+    pub fn q_router_comp(&mut self, reverse: bool, amt: u128, ops: &[(A, A)]) {
+        let app_ptr: *const App = &self.app;
+        let me: &Env = self;
+        GUARDED.store(true, Ordering::SeqCst);
+        let r = catch_unwind(AssertUnwindSafe(|| -> Option<u128> {
+            let app: &App = unsafe { &*app_ptr };
+            if ops.is_empty() {
+                return None;
+            }
+            let mut cur = amt;
+            let seq: Vec<&(A, A)> = if reverse { ops.iter().rev().collect() } else { ops.iter().collect() };
+            for (o, a) in seq {
+                let pi: PairInfo = app.wrap().query_wasm_smart(me.astr(me.factory), &FacQuery::Pair { asset_infos: [me.info(*o), me.info(*a)] }).ok()?;
+                if reverse {
+                    let x: ReverseSimulationResponse = app.wrap().query_wasm_smart(pi.contract_addr, &PairQuery::ReverseSimulation { ask_asset: Asset { info: me.info(*a), amount: Uint128::new(cur) } }).ok()?;
+                    cur = x.offer_amount.u128();
+                } else {
+                    let x: SimulationResponse = app.wrap().query_wasm_smart(pi.contract_addr, &PairQuery::Simulation { offer_asset: Asset { info: me.info(*o), amount: Uint128::new(cur) } }).ok()?;
+                    cur = x.return_amount.u128();
+                }
+            }
+            Some(cur)
+        }));
+        GUARDED.store(false, Ordering::SeqCst);
+        let s = match r { Ok(Some(x)) => format!("ok {x}"), _ => "fail".into() };
+        writeln!(self.w, "query seq={} {} {amt} {} => {s}", self.seq, if reverse { "rrevcomp" } else { "rsimcomp" }, ops_str(ops)).unwrap();
     }
     pub fn q_lookup(&mut self, a: A, b: A) {
         let r: Result<PairInfo, _> = self.app.wrap()
@@ -747,7 +784,7 @@ pub fn setup<'a>(w: &'a mut dyn Write, seq: u64, seed: u64, family: &str) -> (En
         .instantiate_contract(rcode, owner.clone(), &RouterInit { halo_factory: factory.to_string() }, &[], "router", None)
         .unwrap();
     let mut env = Env {
-        app, w, addr_id: HashMap::new(), addrs: vec![], denoms, factory: 0, router: 0, users: vec![], tokens: vec![], pairs: vec![],
+        app, w, addr_id: HashMap::new(), addrs: vec![], denoms, factory: 0, router: 0, users: vec![], tokens: vec![], alias_tokens: vec![], pairs: vec![],
         accounts: vec![], assets: vec![], allow_watch: vec![], last: HashMap::new(), seq, stepno: 0, token_code: tcode, pair_code: pcode,
     };
     writeln!(env.w, "begin seq={seq} seed={seed} family={family}").unwrap();
@@ -760,7 +797,7 @@ pub fn setup<'a>(w: &'a mut dyn Write, seq: u64, seed: u64, family: &str) -> (En
     env.router = env.aid(router.as_str());
     env.accounts.push(env.factory);
     env.accounts.push(env.router);
-    writeln!(env.w, "fac {} owner={}", env.factory, env.users[0]).unwrap();
+    writeln!(env.w, "fac {} owner={} pair_code={} token_code={}", env.factory, env.users[0], pcode, tcode).unwrap();
     writeln!(env.w, "router {}", env.router).unwrap();
     for d in 0..env.denoms.len() {
         env.assets.push(A::N(d as u64));
@@ -791,6 +828,13 @@ pub fn setup<'a>(w: &'a mut dyn Write, seq: u64, seed: u64, family: &str) -> (En
             let uid = env.addr_id[u];
             writeln!(env.w, "tbal {tid} {uid} {}", b.amount).unwrap();
         }
+    }
+    // the same token contracts named in upper case (canonicalisation is case-insensitive, address equality is not)
+    for t in env.tokens.clone() {
+        let up = env.astr(t).to_uppercase();
+        let aid = env.aid(&up);
+        env.alias_tokens.push(aid);
+        env.decl_asset(A::T(aid));
     }
     for u in 0..users.len() {
         for d in 0..env.denoms.len() {
@@ -877,7 +921,9 @@ impl Gen {
     pub fn setup_pairs(&self, e: &mut Env, r: &mut Rng, npairs: usize) {
         let owner = e.users[0];
         // factory needs a balance of a denom to register it
-        let coins: Coins = (0..e.denoms.len() as u64).map(|d| (d, 1u128)).collect();
+        // (one denom is sometimes left without a factory balance: its registration must then be refused)
+        let skip = if r.chance(1, 2) { Some(r.below(e.denoms.len() as u64)) } else { None };
+        let coins: Coins = (0..e.denoms.len() as u64).filter(|d| Some(*d) != skip).map(|d| (d, 1u128)).collect();
         e.step(Op::BankSend { s: owner, d: e.factory, coins });
         for d in 0..e.denoms.len() {
             if d == 5 && r.chance(1, 2) {
@@ -955,12 +1001,13 @@ impl Gen {
         if e.pairs.is_empty() {
             return ops;
         }
-        let first = r.pick(&e.pairs).clone();
+        let obs = &e.pairs[..e.pairs.len().min(8)];
+        let first = r.pick(obs).clone();
         let (mut cur_from, mut cur_to) = if r.chance(1, 2) { (first.a0, first.a1) } else { (first.a1, first.a0) };
         ops.push((cur_from, cur_to));
         let hops = r.range(1, 4);
         for _ in 1..hops {
-            let cands: Vec<&PairMeta> = e.pairs.iter().filter(|p| (p.a0 == cur_to && p.a1 != cur_from) || (p.a1 == cur_to && p.a0 != cur_from)).collect();
+            let cands: Vec<&PairMeta> = obs.iter().filter(|p| (p.a0 == cur_to && p.a1 != cur_from) || (p.a1 == cur_to && p.a0 != cur_from)).collect();
             if cands.is_empty() {
                 break;
             }
@@ -986,15 +1033,17 @@ impl Gen {
         if e.pairs.is_empty() {
             return Some(Op::BankSend { s: u, d: e.users[1], coins: vec![(0, 1)] });
         }
-        let pm = r.pick(&e.pairs).clone();
+        // operations address the pairs whose balances are observed (the first 8); later pairs exist for the registry
+        let pm = r.pick(&e.pairs[..e.pairs.len().min(8)]).clone();
         let r0 = e.bal(pm.a0, pm.addr);
         let r1 = e.bal(pm.a1, pm.addr);
         let weights: &[(u32, &str)] = match family {
             "swap" => &[(40, "swap"), (8, "provide"), (4, "withdraw"), (4, "donate"), (6, "forged"), (4, "misc")],
+            "auth" if e.pairs.iter().take(8).any(|pm| e.bal(A::T(pm.lp), pm.addr) > 0) => &[(5, "swap"), (5, "provide"), (20, "auth"), (25, "forged"), (10, "rauth"), (10, "factory"), (5, "donate")],
             "liquidity" => &[(10, "swap"), (30, "provide"), (25, "withdraw"), (6, "donate"), (4, "forged"), (4, "misc"), (3, "lpmove")],
-            "route" => &[(10, "swap"), (4, "provide"), (2, "withdraw"), (45, "route"), (4, "donate"), (6, "rauth"), (3, "misc")],
+            "route" => &[(10, "swap"), (4, "provide"), (2, "withdraw"), (45, "route"), (4, "donate"), (6, "rauth"), (8, "misc")],
             "factory" => &[(5, "swap"), (5, "provide"), (30, "factory"), (6, "misc"), (6, "auth")],
-            "auth" => &[(5, "swap"), (5, "provide"), (30, "auth"), (10, "forged"), (10, "rauth"), (10, "factory")],
+            "auth" => &[(5, "swap"), (5, "provide"), (30, "auth"), (10, "forged"), (10, "rauth"), (10, "factory"), (8, "donate")],
             _ => &[(20, "swap"), (15, "provide"), (12, "withdraw"), (15, "route"), (6, "donate"), (6, "forged"), (5, "misc"), (6, "factory"), (5, "auth"), (4, "rauth"), (3, "lpmove")],
         };
         let total: u32 = weights.iter().map(|w| w.0).sum();
@@ -1007,7 +1056,13 @@ impl Gen {
             }
             x -= wgt;
         }
-        let to = match r.below(5) { 0 => Some(self.user(e, r)), 1 => Some(u), _ => None };
+        let to = match r.below(16) {
+            0 | 1 | 2 => Some(self.user(e, r)),
+            3 | 4 | 5 => Some(u),
+            6 => Some(r.pick(&e.pairs[..e.pairs.len().min(8)]).addr),     // a pool as the recipient (a donation; legal)
+            7 if family == "route" => Some(e.router),
+            _ => None,
+        };
         Some(match kind {
             "swap" => {
                 let (offer, ro) = if r.chance(1, 2) { (pm.a0, r0) } else { (pm.a1, r1) };
@@ -1087,10 +1142,17 @@ impl Gen {
                 let holder = *r.pick(&e.users[1..5].to_vec());
                 let b = e.bal(A::T(pm.lp), holder);
                 if r.chance(1, 2) {
-                    Op::TokTransfer { t: pm.lp, s: holder, d: self.user(e, r), amt: b / (2 + r.below(5) as u128) }
+                    // to another user — or, sometimes, a plain transfer of LP tokens to the pair's own address
+                    let d = if r.chance(1, 3) { pm.addr } else { self.user(e, r) };
+                    Op::TokTransfer { t: pm.lp, s: holder, d, amt: b / (2 + r.below(5) as u128) }
                 } else {
                     Op::TokBurn { t: pm.lp, s: holder, amt: b / (3 + r.below(5) as u128) }
                 }
+            }
+            "donate" if r.chance(1, 6) && e.bal(A::T(pm.lp), u) > 0 => {
+                // LP tokens sent to the pair by a plain transfer (they sit on the pair's own account)
+                let b = e.bal(A::T(pm.lp), u);
+                Op::TokTransfer { t: pm.lp, s: u, d: pm.addr, amt: b / (2 + r.below(20) as u128) + 1 }
             }
             "donate" => {
                 let a = if r.chance(1, 2) { pm.a0 } else { pm.a1 };
@@ -1102,7 +1164,9 @@ impl Gen {
                 }
             }
             "forged" => {
-                let amt = amt_rel(r, self.unit);
+                // when the pair itself holds LP tokens, forged withdraw hooks claim (part of) exactly that amount
+                let held = e.bal(A::T(pm.lp), pm.addr);
+                let amt = if held > 0 && r.chance(1, 2) { held / (1 + r.below(4) as u128) } else { amt_rel(r, self.unit) };
                 let named = match r.below(3) { 0 => pm.a0, 1 => pm.a1, _ => self.any_asset(e, r) };
                 let hook = match r.below(4) {
                     0 => Hook::Withdraw,
@@ -1120,6 +1184,29 @@ impl Gen {
                         let b = e.bal(A::T(t), u);
                         Op::TokSend { t, s: u, d: pm.addr, amt: b / (2 + r.below(100) as u128), hook }
                     }
+                }
+            }
+            "route" if r.chance(1, 12) && e.pairs.len() >= 2 => {
+                // a route that returns to an asset an earlier pool paid out, delivered to that very pool:
+                // [A->B (P1), B->C (P2), C->B (P2)] with recipient P1 — P1's balance of the final asset B falls during
+                // the route, so "the recipient's balance grew by at least m" must reject every m > 0
+                let obs = &e.pairs[..e.pairs.len().min(8)];
+                let p1 = r.pick(obs).clone();
+                let (a, b) = if r.chance(1, 2) { (p1.a0, p1.a1) } else { (p1.a1, p1.a0) };
+                let p2s: Vec<&PairMeta> = obs.iter().filter(|q| q.addr != p1.addr && (q.a0 == b || q.a1 == b)).collect();
+                if p2s.is_empty() {
+                    return Some(Op::BankSend { s: u, d: e.users[1], coins: vec![(0, 1)] });
+                }
+                let p2 = (*r.pick(&p2s)).clone();
+                let c = if p2.a0 == b { p2.a1 } else { p2.a0 };
+                let ops = vec![(a, b), (b, c), (c, b)];
+                let rr = e.bal(a, p1.addr);
+                let amt = (rr / (2 + r.below(50) as u128)).min(e.bal(a, u) / 2) + 1;
+                e.q_router(false, amt, &ops);
+                let min = match r.below(4) { 0 => None, 1 => Some(0), 2 => Some(1), _ => Some(1 + r.below(1_000_000) as u128) };
+                match a {
+                    A::N(d) => Op::ROps { s: u, funds: vec![(d, amt)], ops, min, to: Some(p1.addr) },
+                    A::T(t) => Op::TokSend { t, s: u, d: e.router, amt, hook: Hook::ROps { ops, min, to: Some(p1.addr) } },
                 }
             }
             "route" => {
@@ -1180,7 +1267,11 @@ impl Gen {
                 match r.below(10) {
                     0 | 1 | 2 => {
                         let a0 = self.any_asset(e, r);
-                        let a1 = if r.chance(1, 10) { a0 } else { self.any_asset(e, r) };
+                        let a1 = if r.chance(1, 10) { a0 } else if r.chance(1, 8) {
+                            // a token named in upper case — possibly the very same contract as a0
+                            match a0 { A::T(t) if r.chance(1, 2) => A::T(e.alias_tokens[e.tokens.iter().position(|x| *x == t).unwrap_or(0)]),
+                                       _ => A::T(*r.pick(&e.alias_tokens)) }
+                        } else { self.any_asset(e, r) };
                         let comm = match r.below(5) { 0 => None, 1 => Some(E18 + 1), _ => Some(pick_rate(r)) };
                         Op::FCreate { s, funds: vec![], a0, a1, wl: vec![e.users[1], e.users[2]], min0: 0, min1: 0, comm }
                     }
@@ -1188,12 +1279,20 @@ impl Gen {
                         let d = r.below(e.denoms.len() as u64);
                         Op::FAdd { s, funds: vec![], denom: d, decimals: r.below(19) as u8 }
                     }
-                    7 => Op::FMig { s, funds: vec![], p: if r.chance(4, 5) { pm.addr } else { u } },
-                    8 => Op::FCfg { s, funds: vec![], owner: None },
+                    7 => Op::FMig { s, funds: vec![], p: if r.chance(4, 5) { pm.addr } else { u },
+                                     code: match r.below(4) { 0 => Some(e.pair_code), 1 => Some(e.pair_code + 77), _ => None } },
+                    8 => {
+                        // code ids: keep, set to the right ones, or break one of them (creation and migration must then fail)
+                        let pick = |r: &mut Rng, right: u64| match r.below(5) { 0 | 1 => None, 2 | 3 => Some(right), _ => Some(right + 50 + r.below(3)) };
+                        let tcode = pick(r, e.token_code);
+                        let pcode = pick(r, e.pair_code);
+                        Op::FCfg { s, funds: vec![], owner: None, tcode, pcode }
+                    }
                     _ => {
-                        // hand ownership over (and, next time, possibly back)
+                        // hand ownership over (and, next time, possibly back), alone or together with code ids
                         let new = if owner == e.users[0] { e.users[5] } else { e.users[0] };
-                        Op::FCfg { s, funds: vec![], owner: Some(new) }
+                        let (tcode, pcode) = match r.below(3) { 0 => (Some(e.token_code), None), 1 => (None, Some(e.pair_code)), _ => (None, None) };
+                        Op::FCfg { s, funds: vec![], owner: Some(new), tcode, pcode }
                     }
                 }
             }
@@ -1203,10 +1302,10 @@ impl Gen {
                 let s = *r.pick(&roles);
                 let s = if (s as usize) < 6 { s } else { u }; // contracts cannot originate calls; a user stands in
                 match r.below(7) {
-                    0 => Op::FCfg { s, funds: vec![], owner: Some(s) },
+                    0 => Op::FCfg { s, funds: vec![], owner: Some(s), tcode: if r.chance(1, 3) { Some(e.token_code) } else { None }, pcode: None },
                     1 => Op::FCreate { s, funds: vec![], a0: A::N(0), a1: A::T(e.tokens[2]), wl: vec![s], min0: 0, min1: 0, comm: None },
                     2 => Op::FAdd { s, funds: vec![], denom: r.below(ND), decimals: 7 },
-                    3 => Op::FMig { s, funds: vec![], p: pm.addr },
+                    3 => Op::FMig { s, funds: vec![], p: pm.addr, code: None },
                     4 => Op::PairUpd { s, p: pm.addr, funds: vec![], denom: r.below(ND), da: 9, db: 9 },
                     5 => Op::ROp { s, funds: vec![], offer: pm.a0, ask: pm.a1, to: Some(s) },
                     _ => Op::RAssert { s, funds: vec![], asset: pm.a1, prev: 0, min: 0, rcv: s },
@@ -1217,8 +1316,8 @@ impl Gen {
                 match r.below(5) {
                     0 => { e.q_sim(pm.addr, pm.a0, amt_rel(r, r0)); }
                     1 => { e.q_rsim(pm.addr, pm.a1, amt_rel(r, r1 / 2)); }
-                    2 => { let ops = self.route(e, r); e.q_router(true, amt_rel(r, self.unit), &ops); }
-                    3 => { let ops = self.route(e, r); e.q_router(false, amt_rel(r, self.unit), &ops); }
+                    2 => { let ops = self.route(e, r); let a = amt_rel(r, self.unit); e.q_router(true, a, &ops); e.q_router_comp(true, a, &ops); }
+                    3 => { let ops = self.route(e, r); let a = amt_rel(r, self.unit); e.q_router(false, a, &ops); e.q_router_comp(false, a, &ops); }
                     _ => { e.q_rsim(pm.addr, self.any_asset(e, r), 5); }
                 }
                 let a = self.any_asset(e, r);
@@ -1376,6 +1475,8 @@ pub fn replay(w: &mut dyn Write, lines: &[String]) {
                         "rsim" => e.q_rsim(t[3].parse().unwrap(), parse_asset(t[4]), t[5].parse().unwrap()),
                         "rsimops" => e.q_router(false, t[3].parse().unwrap(), &parse_ops(t[4])),
                         "rrev" => e.q_router(true, t[3].parse().unwrap(), &parse_ops(t[4])),
+                        "rsimcomp" => e.q_router_comp(false, t[3].parse().unwrap(), &parse_ops(t[4])),
+                        "rrevcomp" => e.q_router_comp(true, t[3].parse().unwrap(), &parse_ops(t[4])),
                         "lookup" => e.q_lookup(parse_asset(t[3]), parse_asset(t[4])),
                         "pairs" => {
                             let start = if t[3] == "-" { None } else { let (a, b) = t[3].split_once(',').unwrap(); Some((parse_asset(a), parse_asset(b))) };
